@@ -548,7 +548,21 @@ func (f *sweepFamily) attribute(failures []sweepFailure) {
 		v := f.value(min)
 		mclause, det, enc := sweepRoundtrip(v, fl.dl)
 		if mclause == "" || (!every && m > leaf.min && fails(m-1)) {
-			run.EngineError("length-sweep: reduction of %s/%s n=%d lost the failure", leaf.name, pos.name, fl.n)
+			// the oracle did observe a failure at length fl.n during the
+			// enumeration, but the same input, decoded again on its own, gives
+			// another answer (the length m found by bisection passes now, or
+			// the length below it fails now): the code under test depends on
+			// what it decoded before. That is a violation of its own kind,
+			// not a failure of the tool.
+			ov := f.value(fl.sweepCase)
+			oenc, _ := encodeValue(ov)
+			run.Unstable(fmt.Sprintf("newvalue/length-sweep/%s/%s/%s", fl.clause, leaf.name, pos.name),
+				fmt.Sprintf("leaf %s (%s) of length %d at position %s, value of signature %s, encoding of %d bytes %s, %s: clause %s during the enumeration (%d of the %d enumerated lengths failed at this position, the smallest %d, the largest %d); re-running lengths %d..%d alone gave different answers",
+					leaf.name, leaf.what, fl.n, pos.name, clip(ov.Signature(), 120), len(oenc), hexs(oenc), fl.dl.name, fl.clause, count[k], f.ncases[[2]int{k.leaf, k.pos}], fl.n, last[k], m-1, fl.n),
+				map[string]interface{}{"entry": "value.NewValue", "family": "length-sweep", "leaf": leaf.name, "position": pos.name, "n": fl.n,
+					"signature": clip(ov.Signature(), 200), "content_rule": enum.SweepContentRule, "encoding_hex": hexs(oenc), "encoding_len": len(oenc),
+					"delivery": fl.dl.name, "clause": fl.clause, "observed": "the clause was violated during the enumeration and not when the case was re-run alone",
+					"expected": "NewValue succeeds, consumes exactly the encoding, keeps the signature, and Write of the result reproduces the encoding - whatever was decoded before"})
 			continue
 		}
 		tk := fmt.Sprintf("%d|%d", k.leaf, m)
